@@ -110,6 +110,24 @@ def check_buffer(cls, name, buf, rng, unit):
                 yield 'not-self-delimiting', 'first %d bytes + %d others are rejected (%s)' % (n, len(suffix), type(e).__name__)
 
 
+def reframed(name, v, rng):
+    """Other wire forms of the same frame that the repository's vectors do not contain: SSL 2.0 records with the 3-byte
+    header and padding, SSH binary packets with more padding."""
+    short = name.rsplit('.', 1)[1]
+    out = []
+    if short == 'SslRecord' and len(v) > 2 and v[0] & 0x80:
+        for p in (0, 1, rng.randint(2, 7)):
+            ln = (((v[0] & 0x7f) << 8) | v[1]) + p
+            if ln < 0x4000:
+                out.append(bytes([(ln >> 8) & 0x3f, ln & 0xff, p]) + v[2:] + bytes(rng.getrandbits(8) for _ in range(p)))
+    if short.startswith('SshRecord') and len(v) > 5:
+        for k in (1, 8, rng.randint(2, 40)):
+            pl = int.from_bytes(v[0:4], 'big')
+            if v[4] + k <= 255 and pl + 4 == len(v):
+                out.append((pl + k).to_bytes(4, 'big') + bytes([v[4] + k]) + v[5:] + bytes(rng.getrandbits(8) for _ in range(k)))
+    return out
+
+
 def class_sweep(chk, rng, per_vector):
     vectors = sweep.library_vectors()
     evals = 0
@@ -121,6 +139,9 @@ def class_sweep(chk, rng, per_vector):
             bufs = [v, v + bytes(rng.getrandbits(8) for _ in range(rng.randint(1, 4)))]
             if unit and len(vectors[cls]) > 1:
                 bufs.append(v + rng.choice(vectors[cls]))
+            if unit:
+                for r in reframed(name, v, rng):
+                    bufs += [r, r + bytes(rng.getrandbits(8) for _ in range(rng.randint(1, 4))), r + v]
             bufs += [sweep.mutate(rng, v) for _ in range(per_vector)]
             for b in bufs:
                 evals += 1
